@@ -8,7 +8,7 @@ RULE = ("random well-formed models (river chains and confluences with junctions,
         "land with impervious / pervious surfaces, groundwater or queue groundwater, sewers) under four pollutant "
         "configurations, shuffled insertion order, forcing with zeros, dry spells and bursts, run in exact arithmetic with the "
         "observer hooks; at every timestep the directly measured stock of the whole model changes within a timestep only by the declared boundary terms and decay, and across close-out only by the decay it records. after every run, pulls and pushes are made directly over every arc and every queue tank must still declare what it holds plus the decay its queue has applied and not yet booked. non-trivial = distinct model with >= 4 nodes."
-        " correspondence (family net): random networks of the real Node, Waste, Storage, Reservoir, Groundwater, River and Catchment classes over plain arcs (3-8 nodes, chains, confluences, stores in cycles, limited capacities, preferences) driven by distribute / route / make_abstractions calls and direct pushes, pulls and checks over arcs: every store and every arc record after every operation equals the model's exactly, and the wiring hypothesis of the network theorems (net_wfb) is evaluated on every network built.")
+        " correspondence (family net): random networks of the real Node, Waste, Storage, Reservoir, Groundwater, River and Catchment classes over plain arcs (3-8 nodes, chains, confluences, stores in cycles, limited capacities, preferences) driven by distribute / route / make_abstractions calls and direct pushes, pulls and checks over arcs: every store and every arc record after every operation equals the model's exactly, and the wiring hypothesis of the network theorems (net_wfb) is evaluated on every network built. correspondence (family tarea): the real Sewer and QueueGroundwater (plain and decaying) between tank-backed or scripted neighbours - time-area and pipe pushes, checks, abstractions, make_discharge / distribute, close-outs, apply_overrides on a used node - every store, queue bucket and arc record compared exactly with coq/TimeArea.v after every operation.")
 
 def probes(rep, thorough):
     # requests made directly over every arc of models that have run: a queue tank's declared stock stays what it holds
@@ -22,4 +22,4 @@ if __name__ == "__main__":
                            ["exact-rational semantics stands for float semantics up to rounding",
                             "remainders below FLOAT_ACCURACY that the code drops by design count as dust (tolerance 1e-9 on exact values)",
                             "treatment parameters are well-formed (constant x temperature factor + liquor multiplier <= 1)"],
-                           n_quick=160, ndates=5, corr=[("net", 250, 2500, 8)], extra=probes))
+                           n_quick=160, ndates=5, corr=[("net", 250, 2500, 8), ("tarea", 200, 2000, 8)], extra=probes))
